@@ -217,6 +217,7 @@ def run(ctx):
     ok = ctx.build_models(MODELS)
     if ok:
         ctx.build_props()
+        ctx.build_props("Props/C08b.vo")  # permutation invariance of the marginal likelihood (MathComp)
     cases = gen_cases(ctx)
     n_eval = nt = 0
     try:
